@@ -19,7 +19,7 @@ struct Wrap<T> {
 }
 
 fn concrete(chars: &[String]) -> String {
-    chars.iter().map(|c| match c.as_str() { "NL" => "\n".to_string(), "NUL" => "\0".to_string(), o => o.to_string() }).collect()
+    chars.iter().map(|c| match c.as_str() { "NL" => "\n".to_string(), "NUL" => "\0".to_string(), "DQ" => "\"".to_string(), "BS" => "\\".to_string(), o => o.to_string() }).collect()
 }
 
 fn toml_doc(s: &str) -> String {
